@@ -54,6 +54,12 @@ fn main() {
             let nshards: usize = args[6].parse().unwrap_or(1);
             std::process::exit(rt::run_child(spec, tier, seed, shard, nshards, &args[7]));
         }
+        "isolate" => {
+            if args.len() < 4 {
+                usage();
+            }
+            std::process::exit(props::c01::isolate(&args[3]));
+        }
         "replay" => {
             if args.len() < 3 {
                 usage();
